@@ -20,6 +20,8 @@ import inspect
 import json
 import os
 import pickle
+import shutil
+import subprocess
 import sys
 import types
 import warnings
@@ -322,6 +324,40 @@ class _RawForm(Exception):
     pass
 
 
+def side(job, what):
+    """perform one store operation in a SECOND process sharing the cache directory"""
+    p = subprocess.run([sys.executable, os.path.abspath(__file__), "--side"],
+                       input=json.dumps({"cache": job["cache"], "moddir": job["moddir"], "scenario": job["scenario"],
+                                         "what": what}),
+                       stdout=subprocess.PIPE, stderr=subprocess.PIPE, text=True, timeout=120)
+    if p.returncode != 0:
+        raise RuntimeError("side process failed: " + p.stderr[-400:])
+
+
+def side_main():
+    import datetime
+    job = json.load(sys.stdin)
+    sc, what = job["scenario"], job["what"]
+    mem = Memory(job["cache"], verbose=0, compress=tuple(sc["compress"]) if isinstance(sc["compress"], list)
+                 else sc["compress"])
+    if what["action"] == "reduce_size":
+        kw = dict(what["kwargs"])
+        if "age_limit" in kw:
+            kw["age_limit"] = datetime.timedelta(seconds=kw["age_limit"])
+        mem.reduce_size(**kw)
+    elif what["action"] == "clearfunc":
+        ver = sc["versions"][str(what["k"])]
+        path = os.path.join(job["moddir"], ver["path"])
+        src = open(path).read()
+        mod = types.ModuleType("verifmod")
+        mod.__dict__["_DEFAULTS"] = {n: dec(d) for n, _, d in vparams(sc, what["k"])
+                                     if d is not None and not is_literal(d)}
+        exec(compile(src, path, "exec"), mod.__dict__)
+        sys.modules["verifmod"] = mod
+        mem.cache(mod.__dict__["g"], ignore=what["opts"].get("ignore"),
+                  mmap_mode=what["opts"].get("mmap_mode")).clear(warn=False)
+
+
 def main():
     job = json.load(sys.stdin)
     # joblib prints progress messages (verbose >= 1) on stdout: the results go to a private copy of fd 1
@@ -338,6 +374,7 @@ def main():
             refs = pickle.load(fh)
     objs, plains, wraps, counts, bases = {}, {}, {}, {}, {}
     valid = VALID
+    last_entry = [None]
 
     def entry_dirs():
         base = mem.store_backend.location
@@ -461,7 +498,7 @@ def main():
             elif kind == "wrap":
                 k = ev[1]
                 wraps[k] = mem.cache(objs[k], ignore=list(sc["ignore"]),
-                                     cache_validation_callback=Validator())
+                                     cache_validation_callback=Validator() if sc.get("callback", True) else None)
                 res["o"] = "done"
                 res["func_id"] = wraps[k].func_id
             elif kind in ("call", "shelve", "check"):
@@ -500,6 +537,8 @@ def main():
                     except Exception:  # noqa
                         res["fa_ok"] = False
                 valid[0] = bool(vld)
+                if res.get("args_id"):
+                    last_entry[0] = (w.func_id, res["args_id"])
                 before = counts[k][0]
                 try:
                     if kind == "call":
@@ -539,10 +578,37 @@ def main():
                 mem.clear(warn=False)
                 res["o"] = "done"
             elif kind == "evict":
+                # Memory.reduce_size with each kind of limit, in this process or in a SECOND process that shares the
+                # cache directory (the wrappers of this process stay alive)
+                import datetime
+                spec = ev[1]
+                kwargs = ({"items_limit": spec} if isinstance(spec, int) else
+                          {"bytes_limit": spec["bytes"]} if "bytes" in spec else
+                          {"age_limit": datetime.timedelta(seconds=spec["age"])})
                 before = entry_dirs()
-                mem.reduce_size(items_limit=ev[1])
+                if len(ev) > 2 and ev[2] == "side":
+                    side(job, {"action": "reduce_size", "kwargs": {k_: (v_ if k_ != "age_limit" else spec["age"])
+                                                                   for k_, v_ in kwargs.items()}})
+                else:
+                    mem.reduce_size(**kwargs)
                 res["o"] = "done"
                 res["evicted"] = sorted(before - entry_dirs())
+            elif kind == "rmentry":
+                # the entry directory of the last call is removed behind joblib's back
+                before = entry_dirs()
+                if last_entry[0] is not None:
+                    shutil.rmtree(os.path.join(mem.store_backend.location, *last_entry[0]), ignore_errors=True)
+                res["o"] = "done"
+                res["evicted"] = sorted(before - entry_dirs())
+            elif kind == "clearfunc2":
+                # clear() of ANOTHER wrapper of the same function (other ignore list / mmap_mode), here or in a second
+                # process
+                k, opts = ev[1], ev[2]
+                if len(ev) > 3 and ev[3] == "side":
+                    side(job, {"action": "clearfunc", "k": k, "opts": opts})
+                else:
+                    mem.cache(objs[k], ignore=opts.get("ignore"), mmap_mode=opts.get("mmap_mode")).clear(warn=False)
+                res["o"] = "done"
             else:
                 res["harness_error"] = "unknown event %r" % (ev,)
         except BaseException as e:  # harness-level failure is reported, not hidden
@@ -556,4 +622,7 @@ def main():
 
 
 if __name__ == "__main__":
-    main()
+    if "--side" in sys.argv:
+        side_main()
+    else:
+        main()
